@@ -128,12 +128,25 @@ def score_work(job):
     stride = job.get('stride', 1)
     cs = job['lo']
     dense_lo = job['lo'] + 3000
+    k = 0
     while cs <= job['hi']:
-        for name, val, manual in S['forms'](job, cs):
+        forms = S['forms'](job, cs)
+        for name, val, manual in forms:
             if job['sys'] == 'ty':
+                # an optional input form belongs to the shared domain only where the Python reference answers it
+                if name.endswith('?') and 'e' in jsdiff.py_eval(athlib.tyrving_score, [job['g'], job['age'], job['ev'], val]):
+                    continue
                 args.append([job['g'], job['age'], job['ev'], val])
             else:
                 args.append([job['ct'], job['ev'], val])
+        if job['sys'] == 'ty' and k % 97 == 0:
+            # other spellings of the event and gender arguments (blank-padded, lower case), where the Python reference answers them
+            ev = job['ev']
+            for ev2, g2 in ((' ' + ev, job['g']), (ev + ' ', job['g']), ('\t' + ev, job['g']), (ev.lower(), job['g']), (ev, job['g'].lower()), (' ' + ev.lower() + ' ', job['g'])):
+                for name, val, manual in forms:
+                    if isinstance(val, str) and 'e' not in jsdiff.py_eval(athlib.tyrving_score, [g2, job['age'], ev2, val]):
+                        args.append([g2, job['age'], ev2, val])
+        k += 1
         cs += 1 if (stride == 1 or cs < dense_lo) else stride
     if job['sys'] == 'qk':
         for nm in job.get('names', []):
@@ -142,6 +155,8 @@ def score_work(job):
                 args.append([nm.lower(), job['ev'], val])
     if job['sys'] == 'ty':
         def sig(a_, py, js):
+            if a_[2] != job['ev'] or a_[0] != job['g']:
+                return 'event-or-gender-spelling'
             dist = sc.setup()['ty']._tyrvingTables[a_[0]][a_[2]][1][0] if job.get('kind') == 'race' else None
             hand = isinstance(a_[3], str) and U().is_hand_timing(a_[3])
             return 'hand-timed-%s' % ('40-60-80-300' if dist in (40, 60, 80, 300) else 'other') if hand else ''
